@@ -534,6 +534,9 @@ func genRcCase(rng *rand.Rand) *rcCase {
 		p.idOk, p.stOk = false, false
 		c.pods = append(c.pods, p)
 	}
+	if rng.Intn(40) == 0 { // a far-away pod, up to the largest ordinal a pod name can carry (once the sentinel of the unhealthy scan)
+		c.pods = append(c.pods, genPodClass(rng, pick(rng, 2147483647, 2147483647, 2147483646, 1000000), c.cur, c.upd, 0))
+	}
 	if rng.Intn(40) == 0 && len(c.pods) > 0 { // duplicate ordinal, only inside the desired set (Go's sort of condemned pods is not stable)
 		q := c.pods[rng.Intn(len(c.pods))]
 		if desiredSet(c.r, c.slots)[q.ord] {
